@@ -37,7 +37,7 @@ def fmt_value(rng, w, n):
 
 
 def gen(rng, tier):
-    reps = 6 if tier == "thorough" else 1
+    reps = 6 if tier == "thorough" else 2
     for cfg in cfgs(tier):
         w, n = wn(cfg)
         W = w * n
